@@ -35,6 +35,7 @@ type dagCase struct {
 	Gen     string   `json:"gen"`
 	Parents [][]int  `json:"parents"`
 	Specs   []string `json:"specs,omitempty"` // C19: "<commit index><suffix>"
+	Pairs   [][2]int `json:"pairs,omitempty"` // C19: only these ordered pairs (deep histories); empty = all
 	Salt    int      `json:"salt"`
 }
 
@@ -150,6 +151,96 @@ func genDag(r *hx.Rng, maxN int) dagCase {
 		ps = append(ps, p)
 	}
 	return dagCase{Gen: "general", Parents: ps, Salt: salt}
+}
+
+// genDeep: a history deeper than 256 (or 512) commits: a long first-parent chain with short side
+// branches forked just below a multiple of 256, merges across the boundary, and the ordered pairs
+// whose two closure cursors straddle it (closure keys carry the height as a little-endian prefix).
+func genDeep(r *hx.Rng, boundaries []int, withPairs bool) dagCase {
+	top := boundaries[len(boundaries)-1] + r.Range(6, 14)
+	ps := [][]int{{}}
+	height := []int{1}
+	mainAt := map[int]int{1: 0} // height -> index on the main line
+	tip := 0
+	type fork struct{ at, n int }
+	var forks []fork
+	for _, b := range boundaries {
+		for k := 0; k < r.Range(2, 4); k++ {
+			forks = append(forks, fork{b - r.Range(1, 7), r.Range(1, 8)})
+		}
+	}
+	var sideTips, interesting []int
+	for height[tip] < top {
+		ps = append(ps, []int{tip})
+		height = append(height, height[tip]+1)
+		tip = len(ps) - 1
+		mainAt[height[tip]] = tip
+		for _, f := range forks {
+			if f.at == height[tip] {
+				cur := tip
+				for x := 0; x < f.n; x++ {
+					ps = append(ps, []int{cur})
+					height = append(height, height[cur]+1)
+					cur = len(ps) - 1
+					interesting = append(interesting, cur)
+				}
+				sideTips = append(sideTips, cur)
+			}
+		}
+		// merge a finished side branch back once the main line is past the boundary
+		for _, b := range boundaries {
+			if height[tip] == b+3 && len(sideTips) > 0 && r.Chance(2, 3) {
+				st := sideTips[r.Intn(len(sideTips))]
+				ps = append(ps, []int{tip, st})
+				h := height[tip]
+				if height[st] > h {
+					h = height[st]
+				}
+				height = append(height, h+1)
+				tip = len(ps) - 1
+				mainAt[height[tip]] = tip
+			}
+		}
+	}
+	c := dagCase{Gen: "deep", Parents: ps, Salt: r.Intn(1 << 30)}
+	if !withPairs {
+		return c
+	}
+	for _, b := range boundaries {
+		for h := b - 6; h <= b+6; h++ {
+			if m, ok := mainAt[h]; ok {
+				interesting = append(interesting, m)
+			}
+		}
+	}
+	interesting = append(interesting, tip, 0, 1)
+	seen := map[[2]int]bool{}
+	add := func(i, j int) {
+		if !seen[[2]int{i, j}] {
+			seen[[2]int{i, j}] = true
+			c.Pairs = append(c.Pairs, [2]int{i, j})
+		}
+	}
+	for _, s := range sideTips {
+		for _, x := range interesting {
+			add(s, x)
+			add(x, s)
+		}
+	}
+	for k := 0; k < 60; k++ {
+		i, j := hx.Pick(r, interesting), hx.Pick(r, interesting)
+		add(i, j)
+		add(j, i)
+	}
+	for k := 0; k < 20; k++ {
+		add(r.Intn(len(ps)), r.Intn(len(ps)))
+	}
+	// specs that walk across the boundary
+	c.Specs = append(c.Specs, fmt.Sprintf("%d~%d", tip, boundaries[0]+2), fmt.Sprintf("%d~%d", tip, height[tip]-1), fmt.Sprintf("%d~%d", tip, height[tip]))
+	for _, s := range sideTips {
+		c.Specs = append(c.Specs, fmt.Sprintf("%d~%d^", s, r.Range(1, 9)))
+	}
+	return c
 }
 
 func genSpecs(r *hx.Rng, c *dagCase, k int) {
@@ -528,14 +619,25 @@ func runLca(e *hx.Env, m *hx.Model, c dagCase) {
 			panic(err)
 		}
 	}
-	res := make([][]string, n)
+	res := map[[2]int]string{}
 	ties, nones := 0, 0
-	for i := 0; i < n; i++ {
-		res[i] = make([]string, n)
-		for j := 0; j < n; j++ {
+	pairs := c.Pairs
+	if len(pairs) == 0 {
+		for i := 0; i < n; i++ {
+			for j := 0; j < n; j++ {
+				pairs = append(pairs, [2]int{i, j})
+			}
+		}
+	}
+	for _, pr := range pairs {
+		i, j := pr[0], pr[1]
+		if i < 0 || j < 0 || i >= n || j >= n {
+			continue
+		}
+		{
 			h, ok, err := datas.FindCommonAncestor(ctx, w.cms[i], w.cms[j], w.vr, w.vr, w.ns, w.ns)
 			got := showLca(h, ok, err)
-			res[i][j] = got
+			res[[2]int{i, j}] = got
 			h2, ok2, err2 := datas.VerifFindCommonAncestorUsingParentsList(ctx, w.cms[i], w.cms[j], w.vr, w.vr, w.ns, w.ns)
 			gotP := showLca(h2, ok2, err2)
 			a, bb := hx40(w.addrs[i]), hx40(w.addrs[j])
@@ -654,11 +756,9 @@ func runLca(e *hx.Env, m *hx.Model, c dagCase) {
 		}
 	}
 	// symmetry
-	for i := 0; i < n; i++ {
-		for j := 0; j < i; j++ {
-			if res[i][j] != res[j][i] {
-				e.Rep.Violate("lca-asymmetric", fmt.Sprintf("merge base (%d,%d) = %s but (%d,%d) = %s", i, j, res[i][j], j, i, res[j][i]), c)
-			}
+	for pr, r1 := range res {
+		if r2, ok := res[[2]int{pr[1], pr[0]}]; ok && pr[0] < pr[1] && r1 != r2 {
+			e.Rep.Violate("lca-asymmetric", fmt.Sprintf("merge base (%d,%d) = %s but (%d,%d) = %s", pr[0], pr[1], r1, pr[1], pr[0], r2), c)
 		}
 	}
 	// ancestor specs
@@ -674,7 +774,7 @@ func runLca(e *hx.Env, m *hx.Model, c dagCase) {
 	}
 	e.Rep.Count(fmt.Sprint(c.Parents), ties > 0 || nones > 0)
 	e.Rep.TracesValidated++
-	e.Rep.Sample(map[string]any{"gen": c.Gen, "commits": n, "pairs": n * n, "tie_pairs": ties, "unrelated_pairs": nones, "specs": len(c.Specs)})
+	e.Rep.Sample(map[string]any{"gen": c.Gen, "commits": n, "pairs": len(pairs), "tie_pairs": ties, "unrelated_pairs": nones, "specs": len(c.Specs)})
 }
 
 // runSpec resolves "<index or HEAD><suffix>" through doltdb and compares with (a) the model's walk
@@ -788,9 +888,9 @@ func main() {
 		run = runLca
 		maxN = e.N(18, 34)
 		cases = e.N(110, 1500)
-		e.Rep.Rule = "random commit DAG histories (generators: criss-cross ladders, equal-height layers, octopus with duplicate parents, skewed heights, forests, general 0-4 parents) created with datas on an in-memory store; every ordered pair through FindCommonAncestor and the parents-list walk, doltdb.GetCommitAncestor, CanFastForwardTo, plus ancestor specs of <= 6 steps; evaluations = pair x algorithm + specs; a DAG is non-trivial when it has a tie (several highest common ancestors) or unrelated pairs; distinct by parent lists"
+		e.Rep.Rule = "random commit DAG histories (generators: criss-cross ladders, equal-height layers, octopus with duplicate parents, skewed heights, forests, general 0-4 parents; plus deep histories of 260-530 commits whose heights cross 256/512, evaluated on the pairs straddling the boundary) created with datas on an in-memory store; every ordered pair through FindCommonAncestor and the parents-list walk, doltdb.GetCommitAncestor, CanFastForwardTo, plus ancestor specs of <= 6 steps; evaluations = pair x algorithm + specs; a DAG is non-trivial when it has a tie (several highest common ancestors) or unrelated pairs; distinct by parent lists"
 	} else {
-		e.Rep.Rule = "random commit DAG histories (<= 60 commits, 0-4 parents, duplicates, criss-cross/layered/octopus/skew/forest generators) created with datas on an in-memory store; height, parent list, closure iteration and re-read address of every commit compared with a brute-force BFS and with the model; one evaluation = one DAG; non-trivial = contains a merge; distinct by parent lists"
+		e.Rep.Rule = "random commit DAG histories (<= 60 commits, 0-4 parents, duplicates, criss-cross/layered/octopus/skew/forest generators; plus one deep history of 260-530 commits per run) created with datas on an in-memory store; height, parent list, closure iteration and re-read address of every commit compared with a brute-force BFS and with the model; one evaluation = one DAG; non-trivial = contains a merge; distinct by parent lists"
 	}
 	if e.Replay != "" {
 		rf, err := hx.LoadReplay(e.Replay)
@@ -813,6 +913,12 @@ func main() {
 	// the Lean witness of C19.lca_algorithms_disagree, replayed on the real code every run
 	if *mode == "lca" {
 		run(e, m, dagCase{Gen: "witness-crisscross", Parents: [][]int{{}, {0}, {0}, {1, 2}, {2, 1}}, Salt: 1})
+	}
+	// deep histories: heights cross 256 (and 512 in the thorough tier)
+	run(e, m, genDeep(e.Rng, []int{256}, *mode == "lca"))
+	if e.Thorough() || e.Search {
+		run(e, m, genDeep(e.Rng, []int{256, 512}, *mode == "lca"))
+		run(e, m, genDeep(e.Rng, []int{256}, *mode == "lca"))
 	}
 	deadline := time.Now().Add(time.Duration(e.N(45, 420)) * time.Second)
 	for i := 0; i < cases && time.Now().Before(deadline); i++ {
